@@ -43,16 +43,7 @@ func (z *zipkinDecoderV2) Decode() error {
 	z.val = make([]string, 10)
 	dec := jx.Decode(z.ctx.bodyReader, 64*1024)
 	return dec.Arr(func(d *jx.Decoder) error {
-		z.traceId = nil
-		z.spanId = nil
-		z.timestampNs = 0
-		z.durationNs = 0
-		z.parentId = ""
-		z.name = ""
-		z.serviceName = ""
-		z.payload = nil
-		z.key = z.key[:0]
-		z.val = z.val[:0]
+		z.reset()
 		rawSpan, err := dec.Raw()
 		if err != nil {
 			return custom_errors.NewUnmarshalError(err)
@@ -61,6 +52,19 @@ func (z *zipkinDecoderV2) Decode() error {
 		return z.decodeSpan(rawSpan)
 	})
 
+}
+
+func (z *zipkinDecoderV2) reset() {
+	z.traceId = nil
+	z.spanId = nil
+	z.timestampNs = 0
+	z.durationNs = 0
+	z.parentId = ""
+	z.name = ""
+	z.serviceName = ""
+	z.payload = nil
+	z.key = z.key[:0]
+	z.val = z.val[:0]
 }
 
 func (z *zipkinDecoderV2) decodeSpan(rawSpan jx.Raw) error {
@@ -222,7 +226,9 @@ func (z *zipkinNDDecoderV2) Decode() error {
 	scanner := bufio.NewScanner(z.ctx.bodyReader)
 	scanner.Split(bufio.ScanLines)
 	for scanner.Scan() {
-		err := z.decodeSpan(scanner.Bytes())
+		z.reset()
+		z.payload = append([]byte{}, scanner.Bytes()...)
+		err := z.decodeSpan(z.payload)
 		if err != nil {
 			return custom_errors.NewUnmarshalError(err)
 		}
